@@ -13,7 +13,8 @@ MODULE = 'Ndt.Props.C10'
 THEOREMS = ['Ndt.num_steps_logic', 'Ndt.min_num_steps_pos', 'Ndt.min_le_num_steps', 'Ndt.divisor_eq_richardson_step',
             'Ndt.default_count_suffices', 'Ndt.default_generators_check', 'Ndt.default_ratio', 'Ndt.limit_default_ratio',
             'Ndt.emitSteps_eq', 'Ndt.emitSteps_zero', 'Ndt.stepsMax_closed_form', 'Ndt.stepsMin_closed_form',
-            'Ndt.steps_geometric_max', 'Ndt.steps_geometric_min', 'Ndt.default_scale_pos']
+            'Ndt.steps_geometric_max', 'Ndt.steps_geometric_min', 'Ndt.default_scale_pos',
+            'Ndt.emitStepsVec_zero_component', 'Ndt.emitStepsVec_eq']
 EPS = 2.0 ** -52
 METHODS = ['central', 'central2', 'forward', 'backward', 'complex', 'multicomplex']
 
